@@ -297,8 +297,10 @@ theorem constNames_verilogOf (ds : List Decl) (nl : Nl) (hnc : ∀ g ∈ nl.gate
     | nil => rfl
     | cons c r2 ih2 => rw [List.flatMap_cons, ih2]; rfl
 
-/-- **the Verilog rendering of a closed description is inside the fragment of `verilog_parsed_sem`** (no branch forks) -/
-theorem verilogOK_verilogOf (cfg : Cfg) (hbf : cfg.bf = false) (nl : Nl) (hc : CommonNl nl) (hcl : ClosedNl nl) :
+/-- the Verilog rendering of a closed description is inside the fragment of `verilog_parsed_sem` as soon as the reader end points
+of its flat line list are pairwise different -/
+theorem verilogOK_verilogOf_of_readers (cfg : Cfg) (nl : Nl) (hc : CommonNl nl) (hcl : ClosedNl nl)
+    (h7 : nodupE ((vFlat cfg primTL (nl.ports.map nlDecl) (verilogOf nl)).map (·.r)) = true) :
     verilogOKB cfg primTL nl.portNames (verilogOf nl) = true := by
   have hsd := sigDecls_verilogOf nl hc.ports
   have hD : drivenSigs primTL (nl.ports.map nlDecl) (verilogOf nl) = nl.gateNames ++ nl.pis := by
@@ -325,8 +327,7 @@ theorem verilogOK_verilogOf (cfg : Cfg) (hbf : cfg.bf = false) (nl : Nl) (hc : C
     refine ⟨hc.inames, hc.ports, fun a ha b hb e => ?_⟩
     obtain ⟨g, hg, rfl⟩ := List.mem_map.mp ha
     exact hc.idisj g hg (e ▸ hb)
-  · rw [vFlat_readers cfg hbf nl hc.nc]
-    exact fe_nodupE_of _ (readers_nodup nl hc)
+  · exact h7
   · rw [vInsts_verilogOf, List.all_eq_true]
     intro i hi
     obtain ⟨g, hg, rfl⟩ := List.mem_map.mp hi
@@ -343,6 +344,13 @@ theorem verilogOK_verilogOf (cfg : Cfg) (hbf : cfg.bf = false) (nl : Nl) (hc : C
   · rw [List.all_eq_true]
     intro n hn
     simp [hcl.ncb n hn]
+
+/-- **the Verilog rendering of a closed description is inside the fragment of `verilog_parsed_sem`** (no branch forks) -/
+theorem verilogOK_verilogOf (cfg : Cfg) (hbf : cfg.bf = false) (nl : Nl) (hc : CommonNl nl) (hcl : ClosedNl nl) :
+    verilogOKB cfg primTL nl.portNames (verilogOf nl) = true :=
+  verilogOK_verilogOf_of_readers cfg nl hc hcl (by
+    rw [vFlat_readers cfg hbf nl hc.nc]
+    exact fe_nodupE_of _ (readers_nodup nl hc))
 
 theorem benchArity_benchOf (nl : Nl) (hc : CommonNl nl) : benchArityB (benchOf nl) = true := by
   rw [benchArityB, benchGates_benchOf, List.all_eq_true]
